@@ -248,7 +248,7 @@ fn gen_vec<T>(r: &mut Rng, max: u64, mut f: impl FnMut(&mut Rng) -> T) -> Vec<T>
 // ------------------------------------------------------------------------------------------------
 
 pub fn gen_typed(r: &mut Rng) -> TV {
-    match r.below(51) {
+    match r.below(55) {
         0 => TV::Unit,
         1 => TV::I32(gen_i32(r)),
         2 => TV::I64(gen_i64(r)),
@@ -338,6 +338,10 @@ pub fn gen_typed(r: &mut Rng) -> TV {
             }
             TV::Ev2 { kind: r.below(4) as u8, n: gen_i32(r), v: gen_vec(r, 3, gen_i32), m, o: if r.chance(1, 3) { None } else { Some(gen_i32(r)) } }
         }
+        50 => TV::HbStruct { a: gen_i32(r), b: gen_string(r), c: if r.chance(1, 2) { None } else { Some(gen_i64(r)) }, n: gen_i32(r) },
+        51 => TV::HdrOpt { o: if r.chance(1, 3) { None } else { Some(gen_i32(r)) }, n: gen_i32(r) },
+        52 => TV::Hdr2 { a: gen_i32(r), b: gen_vec(r, 3, gen_string), n: gen_i32(r) },
+        53 => TV::VecOptPlain(gen_vec(r, 3, |r| if r.chance(1, 3) { None } else { Some((gen_i32(r), gen_string(r), if r.chance(1, 2) { None } else { Some(gen_i64(r)) })) })),
         43 => TV::HdrBodyVec { v: gen_vec(r, 4, gen_i32), n: gen_i32(r) },
         38 => TV::AttrRows { rows: gen_vec(r, 3, |r| gen_vec(r, 3, gen_i32)), n: gen_i32(r) },
         37 => TV::Timestamp(match r.below(4) {
